@@ -238,6 +238,74 @@ func owScenario(p owParams) func() {
 	}
 }
 
+// owSeqScenario: two one-way calls on the same nodes with a transport event in between (while the
+// client is idle). Every message must be handled at most once - exactly once where the node is
+// reachable again - whatever the library does to recover the stream.
+func owSeqScenario(p owParams) func() {
+	return func() {
+		n := 2
+		if strings.HasPrefix(p.kind, "Unicast") {
+			n = 1
+		}
+		w := world.New(world.Opts{N: n, Window: 2})
+		if w.Cfg == nil {
+			return
+		}
+		w.Handle = func(h *world.HCtx) world.Reply { return world.Reply{} }
+		name, key := p.name(), classOf(p.kind)
+		mk := func() *world.Call {
+			c := w.NewCall(p.kind)
+			c.NoSendWaiting = p.nsw
+			if n == 1 {
+				c.Node = 1
+			}
+			return c
+		}
+		settle := func() {
+			mc.Quiesce()
+			for i := 0; i < 4; i++ {
+				if mc.FireTimers(nil) == 0 {
+					break
+				}
+				mc.Quiesce()
+			}
+		}
+		c1 := mk()
+		w.Start(c1)
+		mc.Quiesce()
+		switch p.state {
+		case "then-reset":
+			for id := 1; id <= n; id++ {
+				w.FW.Reset(world.Addr(id))
+			}
+		case "then-restart":
+			for id := 1; id <= n; id++ {
+				w.FW.Crash(world.Addr(id))
+				w.FW.Restart(world.Addr(id))
+			}
+		}
+		settle()
+		c2 := mk()
+		w.Start(c2)
+		settle()
+		for i, c := range []*world.Call{c1, c2} {
+			for id := 1; id <= n; id++ {
+				e := w.Entered(id, c.Tok)
+				if e > 1 {
+					fail("C06/delivery-count", key, "%s: node %d handled one-way call %d %d times", name, id, i+1, e)
+				}
+				if e == 0 && c.Returned && c.Err == nil && (i == 0 || !p.nsw) {
+					fail("C06/delivery-count", key, "%s: node %d is reachable, call %d returned without error, but its message was never handled", name, id, i+1)
+				}
+			}
+			if !c.Returned {
+				fail("C06/oneway-waits", key, "%s: one-way call %d has not returned", name, i+1)
+			}
+		}
+		mc.Outcome("c1=%d c2=%d err2=%v", w.Entered(1, c1.Tok), w.Entered(1, c2.Tok), c2.Err != nil)
+	}
+}
+
 func c06Instances(tier string) []Instance {
 	var out []Instance
 	kinds := []string{"QuorumCallPerNodeArg", "QuorumCallCombo", "QuorumCallAsyncPerNodeArg", "QuorumCallAsyncCombo", "CorrectablePerNodeArg", "CorrectableCombo", "CorrectableStreamPerNodeArg", "CorrectableStreamCombo", "MulticastPerNodeArg",
@@ -278,13 +346,25 @@ func c06Instances(tier string) []Instance {
 			}
 		}
 	}
+	for _, kind := range []string{"Unicast", "Multicast", "MulticastPerNodeArg"} {
+		for _, nsw := range []bool{false, true} {
+			for _, st := range []string{"then-nothing", "then-reset", "then-restart"} {
+				p := owParams{kind: kind, nsw: nsw, state: st}
+				b := 1
+				if thorough(tier) {
+					b = 2
+				}
+				out = append(out, Instance{Name: "oneway-sequence/" + p.name(), Bound: b, Root: owSeqScenario(p)})
+			}
+		}
+	}
 	return out
 }
 
 func init() {
 	register(&Check{ID: "C06",
-		Rule: "(a) n in 1..3 x every skip subset of the per-node function (node-distinct payloads) x 9 call variants that take one + 6 plain variants x threshold {targeted, targeted+1}: each server's received payload, delivery count and the call's completion / counts are compared with f(request, i); (b) unicast / multicast variants x send-waiting on/off x node state {idle, handlers blocked forever, endpoints down, transport window full with earlier messages}: the call must have returned at the first quiescent point without any handler returning (and, with no-send-waiting, without the connection); all schedules within the deviation bound; an outcome is (instance, returned, deliveries)",
-		Gen:  c06Instances,
+		Rule:        "(a) n in 1..3 x every skip subset of the per-node function (node-distinct payloads) x 9 call variants that take one + 6 plain variants x threshold {targeted, targeted+1}: each server's received payload, delivery count and the call's completion / counts are compared with f(request, i); (b) unicast / multicast variants x send-waiting on/off x node state {idle, handlers blocked forever, endpoints down, transport window full with earlier messages}: the call must have returned at the first quiescent point without any handler returning (and, with no-send-waiting, without the connection); (c) two one-way calls with {nothing, a stream reset, a crash and restart of every node} while the client is idle in between, back-off timers fired to a horizon of 4 rounds: every message is handled at most once, and exactly once when the call reported no error; all schedules within the deviation bound; an outcome is (instance, returned, deliveries)",
+		Gen:         c06Instances,
 		Assumptions: []string{"'without waiting' is decided untimed: at quiescence, before any gate is opened or timer fired", "transport is the fakegrpc model with window 1 for the one-way family"},
 	})
 }
@@ -294,7 +374,7 @@ func init() {
 // the request payload (per-node converted where declared), and the caller gets the declared type.
 func init() {
 	register(&Check{ID: "C17",
-		Rule: "dynamic binding: each of the 27 generated zorums call variants the harness can drive is invoked on 2 nodes against puppet servers built from the (regenerated) stubs; the handler entered, the payload it receives and the static type of the result are compared with the method's declaration; an outcome is the instance",
+		Rule: "dynamic binding: each of the 27 generated zorums call variants the harness can drive is invoked on 2 nodes against puppet servers built from the (regenerated) stubs; the handler entered, the payload it receives and the static type of the result are compared with the method's declaration; each two-way variant is also run with node 2's handler failing (stream handlers: right after one or two replies): every reply sent reaches the quorum function and the caller is told node 2's error; an outcome is the instance",
 		Gen: func(tier string) []Instance {
 			kinds := []string{"GRPCCall", "QuorumCall", "QuorumCallPerNodeArg", "QuorumCallCustomReturnType", "QuorumCallCombo",
 				"QuorumCallAsync", "QuorumCallAsync2", "QuorumCallAsyncPerNodeArg", "QuorumCallAsyncCustomReturnType", "QuorumCallAsyncCombo",
@@ -314,11 +394,104 @@ func init() {
 				}
 				p := pnParams{kind: k, n: 2}
 				out = append(out, Instance{Name: "binding-dynamic/" + k, Bound: 0, Root: pnScenario(p)})
+				if world.IsStream(k) {
+					for _, replies := range []int{1, 2} {
+						out = append(out, Instance{Name: fmt.Sprintf("binding-dynamic/%s/node-2-fails/k=%d", k, replies), Bound: 1, Root: stubErrorScenario(k, replies)})
+					}
+				} else if !world.IsOneWay(k) {
+					out = append(out, Instance{Name: "binding-dynamic/" + k + "/node-2-fails", Bound: 1, Root: stubErrorScenario(k, 0)})
+				}
 			}
 			return out
 		},
 		Assumptions: []string{"the harness is compiled against the stubs regenerated from the working tree's templates"},
 	})
+}
+
+// stubErrorScenario: node 1 answers, node 2's handler fails (a stream handler after k replies, without
+// pausing): through the generated server and client stubs every reply that was sent reaches the quorum
+// function with its own stamp and node 2's error reaches the caller.
+func stubErrorScenario(kind string, k int) func() {
+	return func() {
+		stream := world.IsStream(kind)
+		w := world.New(world.Opts{N: 2, Window: 8})
+		if w.Cfg == nil {
+			return
+		}
+		w.Handle = func(h *world.HCtx) world.Reply {
+			if stream {
+				for i := 0; i < k; i++ {
+					if err := h.Send(i, i); err != nil {
+						return world.Reply{Err: err}
+					}
+				}
+			}
+			if h.Node == 2 {
+				return world.Reply{Err: handlerError(2)}
+			}
+			return world.Reply{}
+		}
+		c := w.NewCall(kind)
+		c.Verdict = func(inv *world.QFInv) { inv.Level = len(c.QF) + 1; inv.Quorum = false }
+		w.Start(c)
+		mc.Quiesce()
+		name := fmt.Sprintf("binding-dynamic/%s/node-2-fails/k=%d", kind, k)
+		seen := map[[2]int]int{}
+		for _, inv := range c.QF {
+			for j := range inv.Keys {
+				_, node, seq, _ := world.Unstamp(inv.Vals[j])
+				seen[[2]int{node, seq}]++
+			}
+		}
+		want := [][2]int{{1, 0}}
+		if stream {
+			want = nil
+			for node := 1; node <= 2; node++ {
+				for i := 0; i < k; i++ {
+					want = append(want, [2]int{node, i})
+				}
+			}
+		}
+		for _, x := range want {
+			if seen[x] == 0 {
+				fail("C17/reply-lost", kind, "%s: reply %d of node %d was sent by the handler but never shown to the quorum function (invocations: %v)", name, x[1], x[0], c.QF)
+			}
+		}
+		if len(seen) != len(want) {
+			fail("C17/reply-lost", kind, "%s: the quorum function saw replies %v, the handlers sent %v", name, seen, want)
+		}
+		checkGenuine(w, c, name)
+		var err error
+		switch {
+		case world.IsCorrectable(kind):
+			_, _, err = world.CorrRawGet(c.Corr)
+			if stream {
+				err = nil // node 1's stream ended without error: the call is still open
+				if closedNow(c.Corr.Done()) {
+					fail("C17/return-value", kind, "%s: the stream call completed although node 1 never failed", name)
+				}
+			} else if !closedNow(c.Corr.Done()) {
+				fail("C17/return-value", kind, "%s: every node has answered, the correctable is not done", name)
+			}
+		case world.IsAsync(kind):
+			if !c.Fut.Done() {
+				fail("C17/return-value", kind, "%s: every node has answered, the future is not done", name)
+			} else {
+				_, err = world.AsyncGet(c.Fut)
+			}
+		default:
+			if !c.Returned {
+				fail("C17/return-value", kind, "%s: every node has answered, the call has not returned", name)
+			}
+			err = c.Err
+		}
+		if !stream {
+			if err == nil || !strings.Contains(err.Error(), "boom2") || strings.Contains(err.Error(), "node 1:") {
+				fail("C17/return-value", kind, "%s: expected an incomplete call naming node 2's error only, got %v", name, err)
+			}
+		}
+		mc.Outcome("ok")
+	}
 }
 
 func owScenarioBinding(p owParams) func() {
